@@ -2,6 +2,7 @@ import PyamgV.Props.Restate
 import PyamgV.Proofs.C03Witness
 import PyamgV.Proofs.SorAdjoint
 import PyamgV.Proofs.GsArrayRefine
+import PyamgV.Proofs.ExtC05RefineOp
 
 /-! # C03 — a cycle is the textbook multigrid recursion: fixed, linear and consistent
 
@@ -36,6 +37,12 @@ restate operator_matrix_is_textbook_operator := PyamgV.C03.msem_mopM
 restate abstract_cycle_is_linear_iteration := PyamgV.cycL_isLinIter
 /-- (restated) the Galerkin special case proved in the design round -/
 restate galerkin_cycle_is_linear_iteration := PyamgV.cyc_isLinIter
+
+/-- (extension E12) on a Galerkin hierarchy (`levels[i+1].A = R A P`) the operator `MopL` of
+`abstract_cycle_is_linear_iteration` is the operator `Mop` of `galerkin_cycle_is_linear_iteration`; the array
+model of C05 (`C05.denseM`) is proved to be the matrix of this operator in Props/C05.lean
+(`denseM_is_textbook_operator`) -/
+restate textbook_operator_galerkin_case := PyamgV.MopL_eq_Mop
 
 /-! ## consequences -/
 
